@@ -71,7 +71,7 @@ Inductive skind := KStat | KEnd | KErr.
 
 (* sender.walk + the goroutine around it (send.go:61-67, 153-186) *)
 Inductive swpc :=
-| SW_Next               (* fs.Walk about to report entry sw_i (ctx check first), or finished *)
+| SW_Next               (* fs.Walk about to report entry sw_i (ctx check first), or finished (no check) *)
 | SW_Lock (k : skind)   (* syncStream.SendMsg: waiting for ss.mu *)
 | SW_Send (k : skind)   (* inside Stream.SendMsg, mutex held *)
 | SW_Done.
@@ -365,10 +365,12 @@ Definition pkt_of (k : skind) : packet :=
 Definition step_walker (p : params) (st : state) : option state :=
   match sw_pc st with
   | SW_Next =>
-      if s_cancel st then Some (set_sw_pc (SW_Lock KErr) st)      (* fs.Walk: ctx.Done -> ctx.Err() *)
-      else if sw_i st <? nentries p then
-        Some (set_sw_pc (SW_Lock KStat)
-                (if is_file p (sw_i st) then set_sfiles (sw_i st :: sfiles st) st else st))
+      (* fs.Walk checks ctx.Done once per entry, before reporting it; after the last entry it
+         returns nil without another check and sender.walk sends the end marker *)
+      if sw_i st <? nentries p then
+        if s_cancel st then Some (set_sw_pc (SW_Lock KErr) st)    (* ctx.Done -> ctx.Err() *)
+        else Some (set_sw_pc (SW_Lock KStat)
+                     (if is_file p (sw_i st) then set_sfiles (sw_i st :: sfiles st) st else st))
       else Some (set_sw_pc (SW_Lock KEnd) st)
   | SW_Lock k => lock_s GWalker (set_sw_pc (SW_Send k) st)
   | SW_Send k =>
